@@ -14,7 +14,11 @@
    The operating system enters as Section variables (oracles):
      resolve : path -> option path   Path.resolve(); None = it raises
                                      (symlink loop, embedded NUL)
-     is_dir, is_file : path -> bool  Path.is_dir() / Path.is_file()
+     is_dir, is_file : path -> option bool
+                                     Path.is_dir() / Path.is_file(); None =
+                                     it raises (pathlib re-raises an OSError
+                                     other than ENOENT/ENOTDIR/EBADF/ELOOP,
+                                     e.g. ENAMETOOLONG)
    No assumption is made about them.
 
    One Gallina function per piece of the Python function, same branch
@@ -98,21 +102,27 @@ Inductive iter : Type :=
 
 Section Static.
   Variable resolve : path -> option path.
-  Variable is_dir is_file : path -> bool.
+  Variable is_dir is_file : path -> option bool.
 
   (* body of the for loop for root d *)
   Definition visit (d : path) (fn : list nat) : iter :=
     match resolve (join d fn) with
     | None => IRaise
     | Some ffn =>
-        let r := if under d ffn && is_dir ffn then resolve (ffn ++ [INDEX])
-                 else Some ffn in
-        match r with
+        (* `ffn.is_relative_to(d) and ffn.is_dir()` (short circuit) *)
+        match (if under d ffn then is_dir ffn else Some false) with
         | None => IRaise
-        | Some ffn' =>
-            if negb (under d ffn') then IContinue
-            else if is_file ffn' then IBreak ffn'
-            else INext ffn'
+        | Some isd =>
+            match (if isd then resolve (ffn ++ [INDEX]) else Some ffn) with
+            | None => IRaise
+            | Some ffn' =>
+                if negb (under d ffn') then IContinue
+                else match is_file ffn' with
+                     | None => IRaise
+                     | Some true => IBreak ffn'
+                     | Some false => INext ffn'
+                     end
+            end
         end
     end.
 
@@ -152,8 +162,8 @@ Fixpoint assoc {B : Type} (k : path) (t : list (path * B)) : option B :=
 
 Definition tbl_resolve (t : list (path * option path)) (p : path) : option path :=
   match assoc p t with Some r => r | None => None end.
-Definition tbl_bool (t : list (path * bool)) (p : path) : bool :=
-  match assoc p t with Some b => b | None => false end.
+Definition tbl_bool (t : list (path * option bool)) (p : path) : option bool :=
+  match assoc p t with Some b => b | None => None end.
 
 (* ---- examples (a tiny world): roots /r1 and /r2, file /r1/a, directory
    /r1/d with index, /r1/ln -> /secret, request strings as code points ---- *)
@@ -171,9 +181,9 @@ Module StaticExamples.
     else if path_eqb p (R1 ++ [DOTDOT; [115]]) then Some SECRET
     else if path_eqb p (R2 ++ [DOTDOT; [115]]) then Some SECRET
     else Some p.
-  Definition isd (p : path) : bool := path_eqb p (R1 ++ [D]).
-  Definition isf (p : path) : bool :=
-    path_eqb p (R1 ++ [A]) || path_eqb p (R1 ++ [D; INDEX]) || path_eqb p SECRET.
+  Definition isd (p : path) : option bool := Some (path_eqb p (R1 ++ [D])).
+  Definition isf (p : path) : option bool :=
+    Some (path_eqb p (R1 ++ [A]) || path_eqb p (R1 ++ [D; INDEX]) || path_eqb p SECRET).
 
   (* "/a" *)
   Example serves_file :
